@@ -212,6 +212,10 @@ def main(argv):
     # level 3 comb: close level-2 states (index, multiply by the other argument / a coefficient, conditionals)
     c = []
     src = l2 if not quick else sorted(l2, key=lambda s: (len(repr(s.recipe)), repr(s.recipe)))[:2500]
+    if quick:
+        # list tensors are where per-component argument bookkeeping lives: always closed, in both tiers
+        chosen = {id(s) for s in src}
+        src = src + [s for s in l2 if id(s) not in chosen and s.recipe[0] == "as_vector"]
     conds2 = conds[:4]
     for s in src:
         if s.cond:
@@ -222,6 +226,7 @@ def main(argv):
                 c.append((op, r, ("t", b)))
         if s.rank == 1:
             c += [("getitem", r, 0), ("mul", ("getitem", r, "i"), ("getitem", ("t", "uu"), "i")), ("mul", ("getitem", r, "i"), ("getitem", ("t", "w"), "i"))]
+            c += [("dot", r, ("t", "w")), ("inner", ("t", "w"), r), ("inner", r, ("t", "w"))]
         if s.rank == 0 and not s.fid:
             for cnd in conds2:
                 c.append(("conditional", cnd.recipe, r, ("t", "z")))
